@@ -238,12 +238,16 @@ def pcDelta_grouped(df, by, seq_columns, **kwargs):
     """
 
     def pcDelta_within_group(dfg):
+        result = pcDelta(dfg[seq_columns], **kwargs)
+        if np.ndim(result) == 0:
+            # bins=0: pcDelta returns the exact coincidence probability of the group
+            return result
         index = kwargs.get("bins")
         if isinstance(index, int):
             index = [index]
         if not index is None:
             index = index[:-1]
-        return pd.Series(pcDelta(dfg[seq_columns], **kwargs), name="Delta", index=index)
+        return pd.Series(result, name="Delta", index=index)
 
     return df.groupby(by).apply(pcDelta_within_group)
 
